@@ -234,6 +234,7 @@ type vSink struct {
 	keep   func(*vLine) bool // optional filter
 	mem    []*vLine          // in-memory copy when collect is set
 	collect bool
+	onPacked func(m *Memberlist, overhead, limit int, msgs [][]byte)
 }
 
 var vs *vSink
@@ -513,6 +514,12 @@ func (s *vSink) selfState(n *vNode) string {
 // The hook
 
 func (s *vSink) hook(m *Memberlist, ev string, kv ...any) {
+	if ev == "packed" {
+		if f := s.onPacked; f != nil {
+			f(m, kv[0].(int), kv[1].(int), kv[2].([][]byte))
+		}
+		return
+	}
 	gid := vGoid()
 	// a push/pull entry is announced outside the node lock: take the snapshot of the
 	// subject's record first (lock order: nodeLock before the sink's mutex)
